@@ -38,12 +38,14 @@ theorem c11_rsa_integer (n : Nat) (hn : 0 < n) :
 
 /-! ## Refusal of malformed JWKs -/
 
-/-- What a successful `validate_dict_key` guarantees. -/
+/-- What a successful `validate_dict_key` guarantees: required members present, every registered member of its declared
+type, and `kty` naming the key class the dict is imported as. -/
 theorem c11_refuse (T : KeyTables) (kty : String) (d : Dict) (h : validateDictKey T kty d = .ok ()) :
     (∀ row ∈ T.paramRegistry ++ T.valueReg kty, row.required = true → d.contains row.name = true) ∧
-    (∀ row ∈ T.paramRegistry ++ T.valueReg kty, ∀ v, d.get? row.name = some v → C15.TypeOK row.validator v) := by
-  simp only [validateDictKey, bind_eq_ok] at h
-  obtain ⟨u1, h1, u2, h2, _⟩ := h
+    (∀ row ∈ T.paramRegistry ++ T.valueReg kty, ∀ v, d.get? row.name = some v → C15.TypeOK row.validator v) ∧
+    d.get? "kty" = some (.str kty) := by
+  simp only [validateDictKey, bind_eq_ok, ensure_eq_ok] at h
+  obtain ⟨u1, h1, _, hk, u2, h2, _⟩ := h
   have key : ∀ reg, validateKeyRegistry reg d = .ok () →
       (∀ row ∈ reg, row.required = true → d.contains row.name = true) ∧
       (∀ row ∈ reg, ∀ v, d.get? row.name = some v → C15.TypeOK row.validator v) := by
@@ -61,7 +63,7 @@ theorem c11_refuse (T : KeyTables) (kty : String) (d : Dict) (h : validateDictKe
       exact (C15.validator_iff _ _).1 hx
   have k1 := key _ h1
   have k2 := key _ h2
-  refine ⟨fun row hrow => ?_, fun row hrow => ?_⟩
+  refine ⟨fun row hrow => ?_, fun row hrow => ?_, by simpa using hk⟩
   · rcases List.mem_append.1 hrow with h | h
     · exact k1.1 row h
     · exact k2.1 row h
@@ -75,7 +77,7 @@ theorem c11_use_ops_consistent (T : KeyTables) (kty : String) (d : Dict) (u : St
     (h : validateDictKey T kty d = .ok ()) :
     ∃ allowed, T.useKeyOps.find? (·.1 == u) = some (u, allowed) ∧ ∀ op ∈ ops, ∃ s, op = .str s ∧ s ∈ allowed := by
   simp only [validateDictKey, bind_eq_ok] at h
-  obtain ⟨_, _, _, _, h3⟩ := h
+  obtain ⟨_, _, _, _, _, _, h3⟩ := h
   unfold validateUseOps at h3
   simp only [hu, ho] at h3
   split at h3
